@@ -214,6 +214,15 @@ Fixpoint is_prefix_ev (a b : list event) : bool :=
   | _, _ => false
   end.
 
+(* did the reply entry point run for a direct sub-message of the program [root]? (unknown nodes count as yes) *)
+Definition direct_reply_ran (infos : list pinfo) (root : N) (tr : trace) : bool :=
+  existsb (fun en => match en with
+                     | RCall n EReply _ _ _ _ _ _ =>
+                         match find_info n infos with
+                         | Some pi => option_eqb N.eqb (pi_disp pi) (Some root)
+                         | None => true end
+                     | _ => false end) tr.
+
 Definition p_c04 (st : step) : option N :=
   first_fail [
     (* 5: a successful top-level execute / sudo of a program: the returned events START with the entry-point
@@ -258,10 +267,31 @@ Definition p_c04 (st : step) : option N :=
                             | _, _ => true end
                   | _ => true end
               | None => true end
-          | _ => true end) (st_trace st))
+          | _ => true end) (st_trace st));
+    (* 9: "a sub-message whose reply is not invoked contributes no data": when no reply entry point was invoked
+          for a DIRECT sub-message of the root program, the returned data is the root's own data (execute: wrapped) *)
+    (9, let infos := flat_op (st_op st) in
+        match st_outcome st, st_op st with
+        | Ok [(ev, d)], TExec _ (MExec c p _) =>
+            direct_reply_ran infos (match p with Prog n _ _ => n end) (st_trace st)
+            || obytes_eqb d (option_map encode_exec_resp (own_data p))
+        | Ok [(ev, d)], TWasmSudo c p =>
+            direct_reply_ran infos (match p with Prog n _ _ => n end) (st_trace st) || obytes_eqb d (own_data p)
+        | _, _ => true end)
   ].
 
 (* ---------- C05: sender, own address, block, funds ---------- *)
+(* the log entries that follow the call entry of node n *)
+Fixpoint after_call (n : N) (tr : trace) : trace :=
+  match tr with
+  | [] => []
+  | en :: r => match call_node en with Some n' => if n' =? n then r else after_call n r | None => after_call n r end
+  end.
+Definition coin_total (d : text) (cs : coins) : N :=
+  fold_right (fun c acc => if teqb (fst c) d then snd c + acc else acc) 0 cs.
+(* a program that starts (right after its marker) by asking for the balance of [a] in [d] *)
+Definition probe_of (p : prog) : option (text * text) :=
+  match p with Prog _ (_ :: AQ (QBalance a d) :: _) _ => Some (a, d) | _ => None end.
 Definition p_c05 (st : step) : option N :=
   let infos := flat_op (st_op st) in
   let tr := st_trace st in
@@ -294,6 +324,23 @@ Definition p_c05 (st : step) : option N :=
                        end)
                | None => false
                end
+           | _ => true
+           end) tr);
+    (* 7: funds told about have ALREADY been moved: a callee that starts by asking for its own balance in an
+          attached denomination is shown at least the total attached in that denomination *)
+    (7, forallb (fun en =>
+           match en with
+           | RCall n EExec c _ funds _ _ _ =>
+               match funds, find_info n infos with
+               | _ :: _, Some pi =>
+                   match probe_of (pi_prog pi) with
+                   | Some (a, d) =>
+                       negb (teqb a c) ||
+                       match after_call n tr with
+                       | RObs n' (VAmount (Some b)) :: _ => negb (n' =? n) || (coin_total d funds <=? b)
+                       | _ => true end
+                   | None => true end
+               | _, _ => true end
            | _ => true
            end) tr)
   ].
